@@ -290,6 +290,11 @@ package memberlist
 //@ pure mlNet(m *Memberlist) bool := mlOK(m) && m.highPriorityMsgQueue != nil && m.lowPriorityMsgQueue != nil && m.transport != nil && m.ackHandlers != nil
 
 //@ ghost $pktLabel string
+//@ ghost $decErr int
+//@ ghost $installed [][]byte
+//@ ghost $plain []byte
+//@ ghost $bodyRead bool
+//@ ghost $rsLabel string
 //@ func (*Memberlist).ingestPacket(m, buf, from, timestamp)
 //@   safety [C13]
 //@   requires ok: mlNet(m) && from != nil
@@ -297,6 +302,13 @@ package memberlist
 //@   at call (*Memberlist).handleCommand: assert label-isolation [C16]: ite(m.config.SkipInboundLabelCheck, $pktLabel == "", $pktLabel == m.config.Label)
 //@   at call decryptPayload: assert label-isolation-dec [C16]: ite(m.config.SkipInboundLabelCheck, $pktLabel == "", $pktLabel == m.config.Label)
 //@   at call decryptPayload: assert aad-is-own-label [C14,C16]: bseq(data) == bseq(m.config.Label)
+//@   at call (*Config).EncryptionEnabled: set $decErr := 1
+//@   at call (*Config).EncryptionEnabled: set $encOn := res
+//@   at call (*Keyring).GetKeys: set $installed := res
+//@   at call decryptPayload: assert all-installed-keys [C14,C17]: keys == $installed
+//@   at call decryptPayload: set $decErr := res1
+//@   at call decryptPayload: set $plain := res0
+//@   at call (*Memberlist).handleCommand: assert authenticated-only [C14]: $encOn && m.config.GossipVerifyIncoming ==> $decErr == 0 && (sliceEq($buf, $plain) || sliceEq($buf, $plain[5:]))
 
 //@ func (*Memberlist).handleCommand(m, buf, from, timestamp)
 //@   safety [C13]
@@ -315,6 +327,10 @@ package memberlist
 
 //@ func decryptPayload(keys, msg, data)
 //@   safety [C13,C14]
+//@   ensures refuse-empty [C14]: len(msg) == 0 ==> result1 != nil
+//@   ensures refuse-version [C14]: len(msg) > 0 && old(msg[0]) > 1 ==> result1 != nil
+//@   ensures refuse-short [C14]: len(msg) > 0 && len(msg) < 29 ==> result1 != nil
+//@   ensures refuse-nokeys [C14]: len(keys) == 0 ==> result1 != nil
 
 //@ func decryptMessage(key, msg, data)
 //@   safety [C13]
@@ -432,15 +448,40 @@ package memberlist
 //@   modular
 //@   requires ok: mlNet(m)
 
+// ---- C15: what reaches the wire. With a keyring and outgoing verification, the only buffer handed to the transport
+// is the one encryptPayload filled (starting empty) under the current primary key with the label as associated data.
+//@ ghost $encOn bool
+//@ ghost $encErr int
+//@ ghost $primary []byte
+//@ ghost $wire []byte
+//@ func (*Config).EncryptionEnabled(c)
+//@   safety [C13,C15,C20]
+//@   modular
+//@   requires nn: c != nil
+//@   ensures keyring [C15]: result ==> c.Keyring != nil
 //@ func (*Memberlist).rawSendMsgPacket(m, a, node, msg)
 //@   safety [C13,C20]
 //@   modular
 //@   requires ok: mlNet(m)
+//@   at call (*Config).EncryptionEnabled: set $encErr := 1
+//@   at call (*Config).EncryptionEnabled: set $encOn := res && m.config.GossipVerifyOutgoing
+//@   at call (*Keyring).GetPrimaryKey: set $primary := res
+//@   at call encryptPayload: assert seal-with-primary [C15,C17]: key == $primary && buflen(dst) == 0
+//@   at call encryptPayload: assert seal-aad-label [C14,C15]: bseq(data) == bseq(m.config.Label)
+//@   at call encryptPayload: set $encErr := res
+//@   at call (*bytes.Buffer).Bytes: set $wire := res
+//@   at call NodeAwareTransport.WriteToAddress: assert ciphertext-only [C15]: $encOn ==> $encErr == 0 && arg0 == $wire
 
+//@ ghost $crypt []byte
 //@ func (*Memberlist).rawSendMsgStream(m, conn, sendBuf, streamLabel)
 //@   safety [C13,C20]
 //@   modular
 //@   requires ok: mlNet(m) && conn != nil
+//@   at call (*Config).EncryptionEnabled: set $encErr := 1
+//@   at call (*Config).EncryptionEnabled: set $encOn := res && m.config.GossipVerifyOutgoing
+//@   at call (*Memberlist).encryptLocalState: set $encErr := res1
+//@   at call (*Memberlist).encryptLocalState: set $crypt := res0
+//@   at call net.Conn.Write: assert ciphertext-only [C15]: $encOn ==> $encErr == 0 && arg0 == $crypt
 
 //@ func (*Memberlist).getBroadcasts(m, overhead, limit)
 //@   safety [C13,C20]
@@ -457,6 +498,12 @@ package memberlist
 //@   safety [C13,C20]
 //@   modular
 //@   requires ok: mlNet(m) && m.config.Keyring != nil
+//@   at call (*Keyring).GetPrimaryKey: set $encErr := 1
+//@   at call (*Keyring).GetPrimaryKey: set $primary := res
+//@   at call encryptPayload: assert seal-with-primary [C15,C17]: key == $primary && buflen(dst) == 5
+//@   at call encryptPayload: set $encErr := res
+//@   at call (*bytes.Buffer).Bytes #2: set $wire := res
+//@   ensures sealed [C15]: result1 == nil ==> $encErr == 0 && result0 == $wire
 
 //@ func makeCompoundMessage(msgs)
 //@   safety [C13,C20]
@@ -509,6 +556,11 @@ package memberlist
 //@   safety [C13,C14]
 //@   modular
 //@   requires ok: mlNet(m) && conn != nil
+//@   at call (*Config).EncryptionEnabled: set $decErr := 1
+//@   at call (*Config).EncryptionEnabled: set $encOn := res
+//@   at call (*Memberlist).decryptRemoteState: set $decErr := res1
+//@   at call (*Memberlist).decryptRemoteState: assert stream-aad-label [C14,C16]: arg2 == streamLabel
+//@   ensures authenticated-only [C14]: result3 == nil && $encOn && m.config.GossipVerifyIncoming ==> $decErr == 0
 //@   ensures nn: result3 == nil ==> result1 != nil && result2 != nil
 
 //@ func (*Memberlist).decryptRemoteState(m, bufConn, streamLabel)
@@ -516,6 +568,11 @@ package memberlist
 //@   modular
 //@   requires ok: mlNet(m) && bufConn != nil && m.config.Keyring != nil
 //@   at call io.CopyN #2: assert cap-cipher [C13]: arg2 <= maxPushStateBytes
+//@   at call io.CopyN #1: set $bodyRead := false
+//@   at call io.CopyN #2: set $bodyRead := true
+//@   at call (*Keyring).GetKeys: assert keys-after-body [C14,C17]: $bodyRead
+//@   at call (*Keyring).GetKeys: set $installed := res
+//@   at call decryptPayload: assert all-installed-keys [C14,C17]: keys == $installed
 
 //@ func (*Memberlist).readRemoteState(m, bufConn, dec)
 //@   safety [C13,C09]
@@ -698,7 +755,7 @@ package memberlist
 //@ func (*Memberlist).probeNode(m, node)
 //@   safety [C19,C20]
 //@   requires ok: mlNet(m) && node != nil
-//@   requires ghostinit: $sendErr != 0
+//@   at call (*Memberlist).nextSeqNo: set $sendErr := 1
 //@   at call (*Memberlist).nextSeqNo: set $probeSeq := res
 //@   at call (*Memberlist).setProbeChannels: assert registers-own-seq [C19]: seqNo == $probeSeq && seqNo == ping.SeqNo
 //@   at call (*Memberlist).encodeAndSendMsg #1: set $sendErr := res
@@ -714,3 +771,14 @@ package memberlist
 //@ func (*awareness).GetHealthScore(a)
 //@   safety [C19,C20]
 //@   requires nn: a != nil
+
+//@ func AddLabelHeaderToStream(conn, label)
+//@   safety [C15,C16,C20]
+//@   bytes
+//@   requires nn: conn != nil
+//@   at call net.Conn.Write: assert header-bytes [C15,C16]: len(arg0) == 2 + len(label) && arg0[0] == 244 && arg0[1] == len(label) && (forall i int :: 0 <= i && i < len(label) ==> arg0[2+i] == label[i])
+//@ func (*labelWrappedTransport).WriteToAddress(t, buf, addr)
+//@   safety [C15,C16,C20]
+//@   bytes
+//@   requires nn: t != nil && t.NodeAwareTransport != nil
+//@   at call NodeAwareTransport.WriteToAddress: assert only-adds-header [C15,C16]: t.label == "" && arg0 == buf || len(t.label) >= 1 && len(t.label) <= 255 && hdrOf(arg0, t.label, buf)
